@@ -68,6 +68,7 @@ type Engine struct {
 	// transient forwarder failure: the next command satisfying FailOnce is refused once
 	FailOnce func(Cmd) bool
 	failed   *Cmd // refused, not yet accepted on a retry
+	handlers map[uint64]ndn.InterestHandler
 }
 
 // ArmFailOnce sets (or clears) the predicate selecting the next command to refuse once.
@@ -114,7 +115,20 @@ func (e *Engine) Start() error            { return nil }
 func (e *Engine) Stop() error             { return nil }
 func (e *Engine) IsRunning() bool         { return true }
 func (e *Engine) AttachHandler(prefix enc.Name, handler ndn.InterestHandler) error {
+	e.mu.Lock()
+	defer e.mu.Unlock()
+	if e.handlers == nil {
+		e.handlers = map[uint64]ndn.InterestHandler{}
+	}
+	e.handlers[prefix.Hash()] = handler
 	return nil
+}
+
+// Handler returns the Interest handler attached to exactly this prefix (nil: none).
+func (e *Engine) Handler(prefix enc.Name) ndn.InterestHandler {
+	e.mu.Lock()
+	defer e.mu.Unlock()
+	return e.handlers[prefix.Hash()]
 }
 func (e *Engine) DetachHandler(prefix enc.Name) error   { return nil }
 func (e *Engine) RegisterRoute(prefix enc.Name) error   { return nil }
@@ -225,6 +239,7 @@ type Sim struct {
 	Nodes   []*Node
 	byHash  map[uint64]int
 	stopped bool
+	svsOn   map[int]bool // routers whose prefix-table SvSync has been started
 }
 
 const Network = "/verif"
@@ -270,10 +285,53 @@ func (s *Sim) Close() {
 	}
 	s.stopped = true
 	s.Settle()
-	for _, nd := range s.Nodes {
+	for i, nd := range s.Nodes {
+		if s.svsOn[i] {
+			nd.R.VerifPfxSvs().Stop()
+		}
 		nd.R.VerifNfdc().Stop()
 	}
 	synctest.Wait()
+}
+
+// StartPrefixSync starts the REAL prefix-table SvSync instance of router i (Router.Start does this):
+// its handler is attached to the harness engine, its main loop runs under virtual time.
+func (s *Sim) StartPrefixSync(i int) {
+	if s.svsOn == nil {
+		s.svsOn = map[int]bool{}
+	}
+	if s.svsOn[i] {
+		return
+	}
+	if err := s.Nodes[i].R.VerifPfxSvs().Start(); err != nil {
+		panic("harness: SvSync.Start: " + err.Error())
+	}
+	s.svsOn[i] = true
+	s.Settle()
+}
+
+// PrefixSyncInterest delivers a Sync Interest of the prefix-table sync group carrying "router name is at
+// sequence number seq" to router i's SvSync (onSyncInterest -> onReceiveStateVector -> onPfxSyncUpdate).
+func (s *Sim) PrefixSyncInterest(i int, name enc.Name, seq uint64) {
+	nd := s.Nodes[i]
+	h := nd.Eng.Handler(nd.Cfg.PrefixTableSyncPrefix())
+	if h == nil {
+		panic("harness: prefix sync group not started")
+	}
+	sv := &svs.StateVectorAppParam{StateVector: &svs.StateVector{
+		Entries: []*svs.StateVectorEntry{{NodeId: name, SeqNo: seq}}}}
+	iname := append(nd.Cfg.PrefixTableSyncPrefix().Clone(), enc.NewVersionComponent(2))
+	sp := spec.Spec{}
+	ei, err := sp.MakeInterest(iname, &ndn.InterestConfig{Lifetime: utils.IdPtr(time.Second)}, sv.Encode(), nil)
+	if err != nil {
+		panic("harness: MakeInterest: " + err.Error())
+	}
+	interest, _, err := sp.ReadInterest(enc.NewWireReader(ei.Wire))
+	if err != nil {
+		panic("harness: ReadInterest: " + err.Error())
+	}
+	h(ndn.InterestHandlerArgs{Interest: interest})
+	s.Settle()
 }
 
 // Settle lets every goroutine spawned by the routers finish and the management queues drain.
@@ -473,6 +531,10 @@ func (s *Sim) Tick(up func(u, w int) bool) {
 func (s *Sim) Restart(i int) {
 	old := s.Nodes[i]
 	s.Settle()
+	if s.svsOn[i] {
+		old.R.VerifPfxSvs().Stop()
+		delete(s.svsOn, i)
+	}
 	old.R.VerifNfdc().Stop()
 	eng := &Engine{}
 	r, err := dv.NewRouter(old.Cfg, eng)
